@@ -18,7 +18,8 @@ M = [
  ('C09-eof-marker-second-byte-not-required', 'basic/lines.c', "	  if (!expect_char(f, 0xFF) || !expect_char(f, 0xFF))\n	    return false;", "	  if (!expect_char(f, 0xFF))\n	    return false;\n	  (void)getc(f);"),
  ('C06-fm-skips-data-crc', 'dfs/track_fm.cc', "if (data_crc != 0 && !discard_record)", "if (false && data_crc != 0 && !discard_record)"),
  ('C06-mfm-skips-header-crc', 'dfs/track_mfm.cc', "		if (check_crc_with_a1s(header, error))\n		  {\n		    if (decode_sector_address_and_size", "		if (true)\n		  {\n		    if (decode_sector_address_and_size"),
- ('C06-fm-no-window', 'dfs/track_fm.cc', "if (thisbit - id_end > max_id_to_data_mark_bits)", "if (false)"),
+ ('C06-fm-no-window', 'dfs/track_fm.cc', "if (id_intervenes || thisbit - id_end > max_id_to_data_mark_bits)", "if (id_intervenes)"),
+ ('C06-fm-id-between-ignored', 'dfs/track_fm.cc', "if (id_intervenes || thisbit - id_end > max_id_to_data_mark_bits)", "if (thisbit - id_end > max_id_to_data_mark_bits)"),
  ('C06-hxc-ordinal-index', 'dfs/img_hxcmfm.cc', "	  if (sect.address == want)", "	  if (&sect == &sectors_[lba < sectors_.size() ? lba : 0])"),
  ('C10-ignores-data-error', 'dfs/img_gzfile.cc', "      case Z_DATA_ERROR:\n	throw FixedDecompressionError(\"input data was corrupted, \"\n				      \"are you sure it was created with gzip?\");", "      case Z_DATA_ERROR:\n	return;"),
  ('C10-truncated-stream-accepted', 'dfs/img_gzfile.cc', "	    if (zerr == Z_BUF_ERROR && got)\n	      {", "	    if (zerr == Z_BUF_ERROR && !got)\n	      return;\n	    if (zerr == Z_BUF_ERROR && got)\n	      {"),
